@@ -160,7 +160,7 @@ func c03RunE1(c *core.Ctx, sc *c03Scenario) {
 				logf(c, "%d fault restart n%d", s.StepN, d)
 				sk := storeStat("num_restores_start_skipped")
 				if err := s.Restart(d); err != nil {
-					violate(c, "restart-failed", "node %d failed to restart after crash: %v", d, err)
+					stViolate(c, "restart-failed", "node %d failed to restart after crash: %v", d, err)
 					return
 				}
 				if storeStat("num_restores_start_skipped") > sk {
@@ -187,7 +187,7 @@ func c03RunE1(c *core.Ctx, sc *c03Scenario) {
 	}
 	for _, d := range downNodes {
 		if err := s.Restart(d); err != nil {
-			violate(c, "restart-failed", "node %d failed to restart after crash: %v", d, err)
+			stViolate(c, "restart-failed", "node %d failed to restart after crash: %v", d, err)
 			return
 		}
 	}
@@ -241,7 +241,7 @@ func c03RunE1(c *core.Ctx, sc *c03Scenario) {
 	ldr = s.Leader()
 	dl, err := s.DumpNode(ldr)
 	if err != nil {
-		violate(c, "dump-failed", "leader database unreadable: %v", err)
+		stViolate(c, "dump-failed", "leader database unreadable: %v", err)
 		return
 	}
 	rows, _, err := parseT(dl)
@@ -260,7 +260,7 @@ func c03RunE1(c *core.Ctx, sc *c03Scenario) {
 		if w.Outcome == "ok" {
 			nOK++
 			if cnt[w.V] == 0 {
-				violate(c, "acked-write-lost", "acknowledged write v=%d is not in the leader's database after crash/restart of a minority", w.V)
+				stViolate(c, "acked-write-lost", "acknowledged write v=%d is not in the leader's database after crash/restart of a minority", w.V)
 				return
 			}
 		} else {
@@ -270,11 +270,11 @@ func c03RunE1(c *core.Ctx, sc *c03Scenario) {
 	for _, r := range rows {
 		v, k := r.V, cnt[r.V]
 		if k > 1 {
-			violate(c, "write-applied-twice", "value v=%d appears %d times", v, k)
+			stViolate(c, "write-applied-twice", "value v=%d appears %d times", v, k)
 			return
 		}
 		if known[v] == nil {
-			violate(c, "phantom-write", "value v=%d was never written", v)
+			stViolate(c, "phantom-write", "value v=%d was never written", v)
 			return
 		}
 	}
@@ -284,11 +284,11 @@ func c03RunE1(c *core.Ctx, sc *c03Scenario) {
 		}
 		d, err := s.DumpNode(n)
 		if err != nil {
-			violate(c, "dump-failed", "database of %s unreadable: %v", n.ID, err)
+			stViolate(c, "dump-failed", "database of %s unreadable: %v", n.ID, err)
 			return
 		}
 		if d != dl {
-			violate(c, "replica-state-differs", "%s (starts=%d) and leader %s differ at the same applied index: %s", n.ID, n.Starts, ldr.ID, sim.FirstDiff(d, dl))
+			stViolate(c, "replica-state-differs", "%s (starts=%d) and leader %s differ at the same applied index: %s", n.ID, n.Starts, ldr.ID, sim.FirstDiff(d, dl))
 			return
 		}
 	}
